@@ -3,6 +3,7 @@ import Gengo.Model.TypeRef
 import Gengo.Model.Template
 import Gengo.Model.Tags
 import Gengo.Model.Sprintf
+import Gengo.Model.Snippet
 import Gengo.Model.Inflect
 import Gengo.Model.LocalName
 import Gengo.Model.Layout
@@ -365,12 +366,59 @@ def runCase (guarded : Bool) (linker h cls : String) (tab : List String) : Strin
 end C19Drv
 
 
+namespace C09Drv
+open Template
+/-- prefix encoding of a snippet tree:
+    `L <0|1> <hex|!>` leaf (isNil, text or panic) · `C <hex>` Comment · `D <hex> <k> <hex>^k` GoDirective ·
+    `T <fmt> <k> {<name> snip}^k` · `P <fmt> <k> {snip_v snip_t}^k` Sprintf · `Q <k> snip^k` Snippets -/
+partial def parse : List String → Option (Snip × List String)
+  | "L" :: n :: t :: r => some (.leaf (n == "1") (if t == "!" then none else some (unhex t)), r)
+  | "C" :: t :: r => some (.leaf false (some (Sprintf.comment (unhex t))), r)
+  | "D" :: d :: k :: r =>
+    let n := k.toNat!
+    some (.leaf false (some (Sprintf.directive (unhex d) ((r.take n).map unhex))), r.drop n)
+  | "T" :: f :: k :: r =>
+    let rec goT : Nat → List String → List (List Char) → List Snip → Option (List (List Char) × List Snip × List String)
+      | 0, r, ns, as => some (ns.reverse, as.reverse, r)
+      | k + 1, n :: r, ns, as => (match parse r with
+        | some (a, r') => goT k r' (unhex n :: ns) (a :: as)
+        | none => none)
+      | _, _, _, _ => none
+    (goT k.toNat! r [] []).map fun (ns, as, r') => (.tmpl (unhex f) ns as, r')
+  | "P" :: f :: k :: r =>
+    let rec goP : Nat → List String → List Snip → List Snip → Option (List Snip × List Snip × List String)
+      | 0, r, vs, ts => some (vs.reverse, ts.reverse, r)
+      | k + 1, r, vs, ts => (match parse r with
+        | some (v, r1) => (match parse r1 with
+          | some (t, r2) => goP k r2 (v :: vs) (t :: ts)
+          | none => none)
+        | none => none)
+    (goP k.toNat! r [] []).map fun (vs, ts, r') => (.sprintf (unhex f) vs ts, r')
+  | "Q" :: k :: r =>
+    let rec goQ : Nat → List String → List Snip → Option (List Snip × List String)
+      | 0, r, as => some (as.reverse, r)
+      | k + 1, r, as => (match parse r with
+        | some (a, r') => goQ k r' (a :: as)
+        | none => none)
+    (goQ k.toNat! r []).map fun (as, r') => (.seq as, r')
+  | _ => none
+
+def run (f5 f6 : Bool) (toks : List String) : String :=
+  match parse toks with
+  | some (s, []) => (match renderTop f5 f6 s with
+    | none => "panic"
+    | some o => "ok " ++ hex o)
+  | _ => "bad-op"
+end C09Drv
+
+
 def handle (fx : String → Bool) (line : String) : String :=
   let fxB := fx "all"
   let fx1 := if fxB then "1" else "0"
   match line.splitOn " " with
   | ["split", h, cls] => C19Drv.runSplit (fx "F1") h cls
   | "case" :: linker :: h :: cls :: tab => C19Drv.runCase (fx "F1") linker h cls tab
+  | "snip" :: toks => C09Drv.run (fx "F5") (fx "F6") toks
   | ["tref", h] =>
     let s := unhex h
     (match TypeRef.parse fxB (s.length + 2) s with
